@@ -256,35 +256,41 @@ def flatten (items : List Item) : List Char := items.flatMap Item.chars
 def width (items : List Item) : Nat := (items.map Item.width).sum
 
 /-- The inner `for g in t.graphemes(true)` loop of `truncate_str_impl`, from `used` columns.
-Returns the clusters pushed and the new `used`; `none` = the `debug_assert!` on a cluster wider
-than 2 fires (dev profile). The fill character has width 1 and does *not* advance `used`. -/
-def truncText (dw : Nat) (fill : Option Char) : Nat → List G → Option (List G × Nat)
-  | used, [] => some ([], used)
+Returns the clusters pushed, the new `used`, and whether a cluster did not fit (the loop was left
+by `break`); `none` = the `debug_assert!` on a cluster wider than 2 fires (dev profile). The fill
+character has width 1 and does *not* advance `used`. -/
+def truncText (dw : Nat) (fill : Option Char) : Nat → List G → Option (List G × Nat × Bool)
+  | used, [] => some ([], used, false)
   | used, g :: gs =>
     if used + g.w > dw then
       match fill with
       | some f =>
-        if g.w = 2 ∧ used < dw then some ([⟨[f], 1⟩], used)
+        if g.w = 2 ∧ used < dw then some ([⟨[f], 1⟩], used, true)
         else if g.w > 2 then none
-        else some ([], used)
-      | none => some ([], used)
+        else some ([], used, true)
+      | none => some ([], used, true)
     else
       match truncText dw fill (used + g.w) gs with
-      | some (r, u) => some (g :: r, u)
+      | some (r, u, c) => some (g :: r, u, c)
       | none => none
 
-/-- The outer `for (t, is_ansi) in items` loop: escape sequences are copied whole. -/
-def truncGo (dw : Nat) (fill : Option Char) : Nat → List Item → Option (List Item)
-  | _, [] => some []
-  | used, .esc s :: rest => (truncGo dw fill used rest).map fun r => .esc s :: r
-  | used, .text gs :: rest =>
-    match truncText dw fill used gs with
-    | none => none
-    | some (kept, used') => (truncGo dw fill used' rest).map fun r => .text kept :: r
+/-- The outer `for (t, is_ansi) in items` loop: escape sequences are copied whole. `cut` is the
+`truncated` flag: in the current source (`truncateStopsAfterCut`, generated) a text item after
+the first cut contributes nothing; in the older form every later text item is tried again. -/
+def truncGo (dw : Nat) (fill : Option Char) : Bool → Nat → List Item → Option (List Item)
+  | _, _, [] => some []
+  | cut, used, .esc s :: rest => (truncGo dw fill cut used rest).map fun r => .esc s :: r
+  | cut, used, .text gs :: rest =>
+    if cut && truncateStopsAfterCut then
+      (truncGo dw fill cut used rest).map fun r => .text [] :: r
+    else
+      match truncText dw fill used gs with
+      | none => none
+      | some (kept, used', c) => (truncGo dw fill (cut || c) used' rest).map fun r => .text kept :: r
 
 /-- `truncate_str_impl(s, dw, "", fill2w)`. -/
 def truncNoTail (dw : Nat) (fill : Option Char) (items : List Item) : Option (List Item) :=
-  if width items ≤ dw then some items else truncGo dw fill 0 items
+  if width items ≤ dw then some items else truncGo dw fill false 0 items
 
 /-- `truncate_str_impl(s, dw, tail, fill2w)`. -/
 def truncate (dw : Nat) (tail : List Item) (fill : Option Char) (items : List Item) :
@@ -293,7 +299,7 @@ def truncate (dw : Nat) (tail : List Item) (fill : Option Char) (items : List It
   else
     match truncNoTail dw fill tail with
     | none => none
-    | some rt => (truncGo dw fill (width rt) items).map fun r => r ++ rt
+    | some rt => (truncGo dw fill false (width rt) items).map fun r => r ++ rt
 
 /-- `style.paint(text)` as items. -/
 def paintItems (st : Sgr.Style) (gs : List G) : List Item :=
